@@ -1,6 +1,6 @@
 (* C20: the generic checker (Proofs/C20.v) evaluated on the pipelines GENERATED from the source.
-   A changed order of side effects in /repo changes Gen/GenStatus.v and these vm_compute
-   obligations are re-decided about what the source says now. *)
+   A changed order of side effects or a changed except clause in /repo changes Gen/GenStatus.v and
+   these vm_compute obligations are re-decided about what the source says now. *)
 From Coq Require Import List Bool Arith.
 Import ListNotations.
 From SCMO Require Import Lib.StatusLang Gen.GenStatus Model.C20 Proofs.C20.
@@ -8,8 +8,9 @@ From SCMO Require Import Lib.StatusLang Gen.GenStatus Model.C20 Proofs.C20.
 Lemma no_chk_ok (ch : nat -> bool) : forall id b, no_chk id = Some b -> ch id = b.
 Proof. intros id b H. discriminate H. Qed.
 
-(* 1. invariant: status Ok -> exists, complete, sorted, indexed; whatever fails, wherever *)
-Lemma chk_inv_pipeline : check no_chk pipeline inv_init invb invb invb = true.
+(* 1. invariant: status Ok -> exists, complete, sorted, indexed; whatever fails, wherever, with
+      whatever exception class *)
+Lemma chk_inv_pipeline : check all_kinds no_chk pipeline inv_init P_inv = true.
 Proof. vm_compute. reflexivity. Qed.
 
 Lemma never_ok_early : forall cnt ch f w0 r s,
@@ -19,19 +20,19 @@ Lemma never_ok_early : forall cnt ch f w0 r s,
 Proof.
   intros cnt ch f w0 r s Hinv Hl Hrun Hst.
   assert (Hi : inv_init w0 = true) by (unfold inv_init; rewrite Hinv, Hl; reflexivity).
-  pose proof (check_sound _ _ _ _ _ _ chk_inv_pipeline cnt ch f w0 r s (no_chk_ok ch) Hi Hrun) as H.
-  apply invb_spec; [destruct r; assumption | assumption].
+  pose proof (check_sound _ _ _ _ _ chk_inv_pipeline cnt ch f w0 r s (any_kind f) (no_chk_ok ch) Hi Hrun) as H.
+  apply invb_spec; assumption.
 Qed.
 
-Lemma never_ok_early_crash_at : forall cnt ch k w0 r s,
+Lemma never_ok_early_crash_at : forall cnt ch e k w0 r s,
   invb w0 = true -> lost w0 = false ->
-  run_prog pipeline cnt ch (crash_at k) w0 = (r, s) ->
+  run_prog pipeline cnt ch (crash_at e k) w0 = (r, s) ->
   st (wd s) = SOk -> ex (wd s) = true /\ co (wd s) = true /\ so (wd s) = true /\ ix (wd s) = true.
-Proof. intros cnt ch k. apply never_ok_early. Qed.
+Proof. intros cnt ch e k. apply never_ok_early. Qed.
 
 (* 2. a run that returns normally (possibly after swallowed failures: sort retries, temp folder
       cleanup) ends with status Ok and all four *)
-Lemma chk_end_pipeline : check no_chk pipeline fresh ok_and_four tt_w tt_w = true.
+Lemma chk_end_pipeline : check all_kinds no_chk pipeline fresh P_end = true.
 Proof. vm_compute. reflexivity. Qed.
 
 Lemma ok_at_end : forall cnt ch f w0 s,
@@ -41,17 +42,16 @@ Lemma ok_at_end : forall cnt ch f w0 s,
 Proof.
   intros cnt ch f w0 s Hl Hrun.
   assert (Hi : fresh w0 = true) by (unfold fresh; rewrite Hl; reflexivity).
-  pose proof (check_sound _ _ _ _ _ _ chk_end_pipeline cnt ch f w0 RNormal s (no_chk_ok ch) Hi Hrun) as H.
-  cbn beta iota in H. unfold ok_and_four in H. apply andb_prop in H. destruct H as [H1 H2].
-  apply status_eqb_eq in H1. split; [assumption|].
-  repeat (apply andb_prop in H2; destruct H2 as [H2 ?]). auto.
+  pose proof (check_sound _ _ _ _ _ chk_end_pipeline cnt ch f w0 RNormal s (any_kind f) (no_chk_ok ch) Hi Hrun) as H.
+  cbn [P_end] in H. unfold ok_and_four in H. apply andb_prop in H. destruct H as [H1 H2].
+  apply status_eqb_eq in H1. split; [assumption | apply four_spec; assumption].
 Qed.
 
 (* 3. a run that raises never leaves status Ok (when it did not start from a stale Ok and no
       blacklist temp files are cleaned up after the pipeline) *)
 Definition chk_tmp : nat -> option bool := fun id => if Nat.eqb id id_ch_tempfiles then Some false else None.
 
-Lemma chk_fail_pipeline : check chk_tmp pipeline not_ok tt_w not_ok not_ok = true.
+Lemma chk_fail_pipeline : check all_kinds chk_tmp pipeline not_ok P_fail = true.
 Proof. vm_compute. reflexivity. Qed.
 
 Lemma fail_not_ok : forall cnt ch f w0 r s,
@@ -65,28 +65,51 @@ Proof.
   { unfold not_ok. destruct (status_eqb (st w0) SOk) eqn:E; [apply status_eqb_eq in E; contradiction | reflexivity]. }
   assert (Hc : forall id b, chk_tmp id = Some b -> ch id = b).
   { intros id b. unfold chk_tmp. destruct (Nat.eqb id id_ch_tempfiles) eqn:E; [|discriminate].
-    apply Nat.eqb_eq in E. subst id. intros H. inversion H. assumption. }
-  pose proof (check_sound _ _ _ _ _ _ chk_fail_pipeline cnt ch f w0 r s Hc Hi Hrun) as H.
-  assert (Hn : not_ok (wd s) = true) by (destruct r; [contradiction Hr; reflexivity | assumption | assumption]).
-  unfold not_ok in Hn. intros E. rewrite E in Hn. discriminate Hn.
+    apply Nat.eqb_eq in E. subst id. intros H. inversion H. subst b. assumption. }
+  pose proof (check_sound _ _ _ _ _ chk_fail_pipeline cnt ch f w0 r s (any_kind f) Hc Hi Hrun) as H.
+  destruct r as [|k]; [contradiction Hr; reflexivity|].
+  cbn [P_fail] in H. unfold not_ok in H. intros E. rewrite E in H. discriminate H.
 Qed.
 
 (* 4. a worker (the with block of run_tagging_tasks) that returns normally has produced a complete,
-      sorted, indexed temporary BAM: justifies counting one worker result as one unit *)
-Lemma chk_worker : check no_chk worker_body fresh four tt_w tt_w = true.
+      sorted, indexed temporary BAM - for every exception class EXCEPT TimeoutError, which the worker
+      swallows on purpose (-max_time_per_segment: the region is skipped and blacklisted).  Justifies
+      counting one worker result as one unit.  A wider except clause in the worker (OSError,
+      Exception ...) refutes this obligation. *)
+Definition worker_kinds : list ekind := [KRuntime; KValue; KOS; KMemory; KOther; KBase].
+Definition no_timeout (f : nat -> fault) : Prop :=
+  forall i, f i <> FBefore KTimeout /\ f i <> FPartial KTimeout.
+
+Lemma no_timeout_kinds f : no_timeout f ->
+  forall i, match f i with FNone => True | FBefore k => In k worker_kinds | FPartial k => In k worker_kinds end.
+Proof.
+  intros H i. destruct (H i) as [H1 H2]. destruct (f i) as [|k|k].
+  - exact I.
+  - destruct k; cbn; try tauto; exfalso; apply H1; reflexivity.
+  - destruct k; cbn; try tauto; exfalso; apply H2; reflexivity.
+Qed.
+
+Lemma chk_worker : check worker_kinds no_chk worker_body fresh P_four = true.
 Proof. vm_compute. reflexivity. Qed.
 
 Lemma worker_complete : forall cnt ch f w0 s,
+  no_timeout f ->
   lost w0 = false ->
   run_prog worker_body cnt ch f w0 = (RNormal, s) ->
   ex (wd s) = true /\ co (wd s) = true /\ so (wd s) = true /\ ix (wd s) = true.
 Proof.
-  intros cnt ch f w0 s Hl Hrun.
+  intros cnt ch f w0 s Hf Hl Hrun.
   assert (Hi : fresh w0 = true) by (unfold fresh; rewrite Hl; reflexivity).
-  pose proof (check_sound _ _ _ _ _ _ chk_worker cnt ch f w0 RNormal s (no_chk_ok ch) Hi Hrun) as H.
-  cbn beta iota in H. unfold four in H.
-  repeat (apply andb_prop in H; destruct H as [H ?]). auto.
+  pose proof (check_sound _ _ _ _ _ chk_worker cnt ch f w0 RNormal s (no_timeout_kinds f Hf) (no_chk_ok ch) Hi Hrun) as H.
+  cbn [P_four] in H. apply four_spec. assumption.
 Qed.
+
+(* the by-design exception: a TimeoutError in a task is swallowed and the worker still returns *)
+Definition worker_timeout_loses_records (chs : list nat) : bool :=
+  existsb (fun k =>
+    let '(r, s) := run_prog worker_body (fun _ => 2) (fun id => existsb (Nat.eqb id) chs) (crash_at KTimeout k)
+                            (mkW SNone false false false false false) in
+    match r with RNormal => lost (wd s) && negb (co (wd s)) | _ => false end) (seq 0 60).
 
 (* helpers for the examples *)
 Definition ch_of (l : list nat) : nat -> bool := fun id => existsb (Nat.eqb id) l.
